@@ -36,7 +36,7 @@ TRUSTED = ['numpy assignment broadcasting / binary broadcasting / slice-length r
            'the structural observation (dimensions, isunlimited, var.dimensions, var.shape, ncattrs+getattr) is taken from the real objects by harness/props/c01.py',
            'operands `other` of stack/arithmetic are observed from the real objects and given to the model as inputs']
 ASSUMPTIONS = ['values are not modelled (C02-C06 cover them); only structure',
-               'not modelled: inplace=True variants, reorderDimensions with repeated names in neworder, interpDimension with N-d coordinates, '
+               'not modelled: inplace=True variants, interpDimension with N-d coordinates, '
                'sliceDimensions newdims other than the default, variables named like a dimension that are not 1-D (sizes differ only there), '
                'numpy apply_along_axis refusing zero-length iteration axes',
                'eval is modelled for three expression shapes: N = a*2, N = a+b, N = a[0]',
@@ -689,8 +689,11 @@ def gen_op(rng, st, malformed):
             new = list(dn)
             rng.shuffle(new)
         else:
-            new = list(rng.choice(vs)[1])
+            dup = [v for v in vs if len(set(v[1])) < len(v[1])]
+            new = list(rng.choice(dup if (dup and rng.random() < 0.7) else vs)[1])    # a variable may carry a dimension twice
             rng.shuffle(new)
+            if new and rng.random() < 0.05:
+                new.append(rng.choice(new))                                          # repeated name in neworder
         return dict(op='reorder', old=list(dn), new=new)
     if k == 'slice':
         if not dn:
